@@ -426,8 +426,10 @@ func (reader *DataReader) next() ([]byte, *DataPos, error) {
 		data, chunkType, err := DecodeChunk(reader.blockBuf[reader.offset:size])
 		if err != nil {
 			// 进程崩溃或断电会在文件末尾留下未写完的记录:
-			// 位于文件最后一个 block 且超出文件末尾的 chunk 视为日志结束而非数据损坏
-			if err == ErrIncompleteChunk && off+int64(size) == fileSize {
+			// 位于文件最后一个 block 且超出文件末尾的 chunk, 或之后直到文件末尾全为 0 的区域
+			// (mmap 预扩展后从未写入的部分), 均视为日志结束而非数据损坏
+			if (err == ErrIncompleteChunk && off+int64(size) == fileSize) ||
+				reader.dataFile.zeroUntilEnd(off+int64(reader.offset), fileSize) {
 				return nil, nil, io.EOF
 			}
 			if err == ErrIncompleteChunk {
@@ -460,6 +462,25 @@ func (reader *DataReader) next() ([]byte, *DataPos, error) {
 // ValidEnd 返回已完整读取的最后一条记录的结束位置
 func (reader *DataReader) ValidEnd() int64 {
 	return reader.validEnd
+}
+
+// 判断文件从 from 到 fileSize 的内容是否全为 0
+func (df *DataFile) zeroUntilEnd(from int64, fileSize int64) bool {
+	block := getBuf()
+	defer putBuf(block)
+	for from < fileSize {
+		n := int(min(fileSize-from, blockSize))
+		if _, err := df.ReadWriter.Read(block[0:n], from); err != nil {
+			return false
+		}
+		for _, b := range block[0:n] {
+			if b != 0 {
+				return false
+			}
+		}
+		from += int64(n)
+	}
+	return true
 }
 
 // Truncate 丢弃 size 之后的内容, 用于恢复时去除文件末尾未写完的记录
